@@ -113,16 +113,16 @@ func regECDSATypes[P curves.Point[P, B, S], B algebra.PrimeFieldElement[B], S al
 
 	deal := "deal/lindell17/" + e.name
 	var l17 []string
-	for _, c := range allCompilers {
+	for _, c := range l17Compilers {
 		l17 = append(l17, "run/lindell17-sign/"+e.name+"/"+compShort(c))
 	}
 	reg[*l17signing.Round1OutputP2P[P, B, S]](famMessages, "lindell17/", l17...)
 	reg[*l17signing.Round2OutputP2P[P, B, S]](famMessages, "lindell17/", l17...)
 	reg[*l17signing.Round3OutputP2P[P, B, S]](famMessages, "lindell17/", l17...)
 	reg[*l17signing.Round4OutputP2P[P, B, S]](famMessages, "lindell17/", l17...)
-	reg[*zkmodule.Proof[*schnorr.Commitment[P, S], *schnorr.Response[S]]](famProofs, "fs/", l17[0], "run/vsot/"+e.name)
-	reg[*fischlin.Proof[*schnorr.Commitment[P, S], *schnorr.Response[S]]](famProofs, "", l17[1])
-	reg[*randfischlin.Proof[*schnorr.Commitment[P, S], *schnorr.Response[S]]](famProofs, "", l17[2])
+	reg[*zkmodule.Proof[*schnorr.Commitment[P, S], *schnorr.Response[S]]](famProofs, "fs/", "run/vsot/"+e.name)
+	reg[*fischlin.Proof[*schnorr.Commitment[P, S], *schnorr.Response[S]]](famProofs, "", l17[0])
+	reg[*randfischlin.Proof[*schnorr.Commitment[P, S], *schnorr.Response[S]]](famProofs, "", l17[1])
 	reg[*schnorr.Commitment[P, S]](famProofs, "maurer09/", l17[0])
 	reg[*schnorr.Response[S]](famProofs, "maurer09/", l17[0])
 	reg[*ecdsa.Signature[S]](famKeysSigs, "", l17[0])
